@@ -34,6 +34,7 @@ def run(ctx: Ctx):
     valid_index_selection(ctx)
     valid_idxs_table(ctx)
     valid_idxs_single_mesh(ctx)
+    count_sources(ctx)
     response_edits(ctx)
     valid_elements_chain(ctx)
     nan_mapping(ctx)
@@ -173,6 +174,19 @@ def response_edits(ctx: Ctx):
         hits = [t for fn in fns for _l, t in IS.zip_filter_mismatch(fn)]
         ctx.ob("response-edit.pairing", where, hits or "no zip of a filtered sequence with a whole payload list", "each count is paired with the element it belongs to", not hits,
                "a missing element that is not the last one shifts every later count onto another row")
+
+
+def count_sources(ctx: Ctx):
+    """Which count measure each Cube accessor hands out, decided over the measures the response carries: the UNWEIGHTED counts
+    are the unweighted valid counts when present, else `result.counts` - never a weighted measure, whatever helper picks
+    it; the (weighted) counts follow weighted valid > unweighted valid > weighted > unweighted."""
+    from . import c16
+
+    c16.count_cascade(ctx, "count-source", "unweighted_counts", ["unweighted_valid_counts", "unweighted_counts"],
+                      "unweighted valid counts, else the response's unweighted counts (never a weighted measure)",
+                      "the unweighted count of a cell is the NUMBER of respondents in it")
+    c16.count_cascade(ctx, "count-source", "counts_with_missings", ["weighted_valid_counts", "unweighted_valid_counts", "weighted_counts", "unweighted_counts"],
+                      "weighted valid > unweighted valid > weighted > unweighted counts", "the counts a cube reports are its weighted counts when it is weighted")
 
 
 def valid_idxs_single_mesh(ctx: Ctx):
